@@ -71,10 +71,10 @@ PROPERTIES = {
     },
     "C09": {
         "title": "Loss detection is sound and in-flight bookkeeping is exact",
-        "steps": [net("C09"), tx("txmc_recovery", "txmc_c09_recovery", expect=2)],
+        "steps": [net("C09"), tx("txmc_recovery", "txmc_c09_recovery", expect=3)],
         "technique": "deviation-bounded exploration with a loss monitor over the event stream (RFC 9002 6.1 transcription)",
         "level_text": NET_NOTE + "Oracle LOSS (from packet_sent / ack_range_received / packet_lost / recovery_metrics events): a packet is declared lost only if a later-sent packet was acknowledged and (largest_acked - pn >= 3 or it was sent more than max(9/8*max(srtt, latest_rtt), 1 ms) ago, with the 1 ms clock granularity of s2n-quic's Timestamp::has_elapsed); never twice, never after it was acknowledged, never an unsent number; min_rtt <= latest sample; smoothed_rtt within the sample range.",
-        "level_note": "RTT values are the endpoint's own metrics events (the smaller of the values before/after the ACK that triggered the loss, since the estimator is updated before detection). MTU probes are exempt (own timer). Component-level exhaustive search of recovery::Manager is a separate engine (txmc) when registered.",
+        "level_note": "RTT values are the endpoint's own metrics events (the smaller of the values before/after the ACK that triggered the loss, since the estimator is updated before detection). MTU probes are exempt (own timer). txmc c09.recovery / c09.recovery_hs / c09.recovery_multipath: explicit-state search (depth 6 quick, 7 thorough) over the real recovery::Manager with real Path(s), CUBIC, RttEstimator and PTO state - application space, handshake space with discard, and two paths with RTT 1 s / 10 ms - against an independent RFC 9002 transcription (loss justification per sending path, PTO expiry marks nothing lost, exactly-once resolution, tracked set == unresolved set, per-path bytes_in_flight, RTT sample rules, PTO floor and doubling).",
         "design_ref": "DESIGN.md §3 C09",
         "assumptions": ["small-scope hypothesis", "event stream is faithful (events are emitted by the code under test)"],
     },
@@ -167,5 +167,23 @@ PROPERTIES = {
         "level_note": "Inputs longer than the bounds that are not generated messages or their mutations are not covered; strict agreement only for versions 0/1. Two listed known findings (long-header Length field not shortest form; ack_delay_exponent decoded as one byte). Packet-number truncation is C08, acceptance rules C14.",
         "design_ref": "DESIGN.md §3 C05",
         "assumptions": ["the reference parser in engines/seqmc/src/c05.rs transcribes the RFCs correctly"],
+    },
+    "C18": {
+        "title": "dc: packets round-trip and only authenticated packets are acted upon",
+        "steps": [seq("c18.*")],
+        "technique": "bounded-exhaustive field-tuple / byte-string / tamper enumeration on the real dc packet codecs and crypto + explicit-state search of the real path-secret Map under forged control packets",
+        "level_text": "c18.roundtrip: 3.2e5 field tuples over varint edges, payload/header sizes and all flag combinations for stream / datagram / control / UnknownPathSecret / StaleKey / ReplayDetected packets (plus probes and retransmissions), both cipher suites with the real key schedule and aws-lc keys: decode(encode(x)) == x after decrypt, announced length == consumed length, trailing bytes untouched. c18.totality: 1.7e7 (quick) / 1.7e8 (thorough) byte strings and substitutions into valid packets on 8 decoder entry points: no panic. c18.tamper: every byte x 9 masks, truncations, byte pairs, swaps, splices and foreign-secret sealing of every valid packet: rejected with no clear text handed out, or nothing the receiver acts on differs. c18.map: the real Map (entries installed through the production dc handshake callbacks) driven to depth 4 (quick) / 6 (thorough) over ~620 operations incl. every tampered byte position of genuine control packets: forged packets leave contains / len / next key id / handshake-request flag and 17 event counters unchanged, genuine ones have exactly their documented effect.",
+        "level_note": "One listed known finding (packet-space flag of retransmitted stream packets is unauthenticated). Documented exception: an UnknownPathSecret's queue id is outside the stateless-reset token by design (the map acts on the credential id only). Not covered: stream receiver state, socket router, uds packets, cleaner cycle.",
+        "design_ref": "DESIGN.md §3 C18",
+        "assumptions": ["small-scope hypothesis", "aws-lc primitives are correct"],
+    },
+    "C19": {
+        "title": "dc: a key ID is accepted at most once and issued at most once",
+        "steps": [seq("c19.*")],
+        "technique": "explicit-state BFS of the real replay window and key-id issuer against exact set models",
+        "level_text": "c19.replay: every sequence of length <= 5 (quick) / 7 (thorough) over 21 key ids (0,1,2, window edges 894..898 and 1790..1794, around 2^32, MAX-2..MAX) on the real receiver::State, compared step by step (result kind and minimum_unseen_key_id) with an exact model: accept <=> unseen and id != MAX and (id > max or max - id < 896). c19.sender: ids issued through the public sealing paths under sequences of issue / genuine signed StaleKey(v) notifications: pairwise distinct, strictly increasing, distinct nonces and ciphertexts.",
+        "level_note": "Sequential part only in this revision: the concurrent clauses (threads calling post_authentication / next_key_id) are decided by the loom engine when it is registered. Trusted: the set model in engines/seqmc/src/c19.rs.",
+        "design_ref": "DESIGN.md §3 C19",
+        "assumptions": ["small-scope hypothesis"],
     },
 }
